@@ -40,8 +40,12 @@ def _join_words(ws):
 plain = st.lists(word, min_size=1, max_size=3).map(_join_words)
 
 
+LEAVES = ["[x]", "[foo bar]", "<nowiki/>", "<nowiki></nowiki>", "&amp;",
+          "__NOTOC__", "http://x.org/p", "<br/>", "-{a}-"]
+
+
 def inline(depth=3):
-    base = plain
+    base = st.one_of(plain, plain, plain, st.sampled_from(LEAVES))
 
     def extend(children):
         seq = st.lists(children, min_size=1, max_size=3).map(" ".join)
